@@ -1027,8 +1027,85 @@ def syntax_within(lang: str, ctor: str, underscore_removed: bool, call: ast.Call
 
 
 # ------------------------------------------------------------------------------------------------ the rule
+def rule_r4_depth(ctx: Ctx) -> None:
+    """RecursionError is one of the exceptions that must never reach the caller.  The analytic queries of the bit-length-set
+    operators are recursive over the operator tree (min asks the operands' min, ...), so the depth of every tree the type model
+    builds has to be bounded independently of the input: a composition that is chained once per element of an input-sized
+    collection (one more operator level per field) makes the recursion as deep as the definition is long."""
+    from ..callgraph import Types
+
+    repo = ctx.repo
+    ctx.rule("C13.R4", "the depth of the operator trees built by the type model does not grow with the size of the input (the operators' queries recurse into their operands): no loop / fold over the fields chains a composition onto its own previous result", min_instances=1)
+    sym = repo.module("_bit_length_set._symbolic")
+    op = ctx.cls("_bit_length_set._symbolic.Operator")
+    recursive = []
+    for c in repo.subclasses(op, strict=True):
+        for q in ("min", "max", "modulo"):
+            m = c.methods.get(q)
+            if m is not None and any(isinstance(n, ast.Attribute) and n.attr == q and not (isinstance(n.value, ast.Name) and n.value.id == "self") for n in ast.walk(m.node)):
+                recursive.append("%s.%s" % (c.name, q))
+    ctx.analysed["C13.R4.recursive_queries"] = sorted(recursive)
+    if not recursive:
+        ctx.check(True, sym.relpath, "the operators' queries do not recurse into operands", "scan completed", sym.relpath, nontrivial=False)
+        return
+    T = Types(repo)
+    bls = ctx.cls("_bit_length_set._bit_length_set.BitLengthSet")
+    COMPOSE = {"pad_to_alignment", "repeat", "repeat_range", "concatenate", "unite"}
+    n_loops = 0
+    for fn in repo.all_functions().values():
+        short_mod = fn.module.name[len("pydsdl."):]
+        if not (short_mod.startswith("_serializable") or short_mod in ("_data_schema_builder", "_data_type_builder")) or fn.name.startswith("_unittest"):
+            continue
+        try:
+            loc = T.locals_of(fn)
+        except Exception:
+            loc = {}
+
+        def chained(st: ast.AST, acc: str) -> bool:
+            """`acc = <composition of acc>`: the right-hand side mentions acc under a BitLengthSet composition"""
+            v = getattr(st, "value", None)
+            if v is None:
+                return False
+            mentions = any(isinstance(n, ast.Name) and n.id == acc for n in ast.walk(v))
+            composes = any((isinstance(n, ast.BinOp) and isinstance(n.op, (ast.Add, ast.BitOr))) or (isinstance(n, ast.Call) and isinstance(n.func, ast.Attribute) and n.func.attr in COMPOSE) for n in ast.walk(v))
+            return mentions and composes
+
+        for loop in [n for n in ast.walk(fn.node) if isinstance(n, ast.For)]:
+            n_loops += 1
+            for st in ast.walk(loop):
+                tg = None
+                if isinstance(st, ast.Assign) and len(st.targets) == 1 and isinstance(st.targets[0], ast.Name):
+                    tg = st.targets[0].id
+                elif isinstance(st, ast.AugAssign) and isinstance(st.target, ast.Name) and isinstance(st.op, (ast.Add, ast.BitOr)):
+                    tg = st.target.id
+                if tg is None:
+                    continue
+                ty = loc.get(tg)
+                try:
+                    ty = ty or T.expr(fn, st.value, loc)
+                except Exception:
+                    pass
+                is_bls = bool(ty) and bls in ty.classes
+                if not is_bls:
+                    continue
+                if isinstance(st, ast.AugAssign) or chained(st, tg):
+                    ctx.check(False, fn.short, norm(st), "one operator level is added per iteration of `for %s in %s`: the recursion depth of min / max / modulo (and of the hash and equality of the type) grows with the number of elements, so a long but valid definition ends in RecursionError" % (norm(loop.target), norm(loop.iter)[:40]), fn.where(st), {"recursive queries": sorted(recursive)[:6]})
+        for call in [n for n in ast.walk(fn.node) if isinstance(n, ast.Call) and (dotted(n.func) or "").split(".")[-1] in ("reduce", "accumulate") and n.args and isinstance(n.args[0], ast.Lambda)]:
+            lam = call.args[0]
+            if lam.args.args and chained(ast.Expr(value=lam.body), lam.args.args[0].arg) is False:
+                v = lam.body
+                acc = lam.args.args[0].arg
+                mentions = any(isinstance(n, ast.Name) and n.id == acc for n in ast.walk(v))
+                composes = any((isinstance(n, ast.BinOp) and isinstance(n.op, (ast.Add, ast.BitOr))) or (isinstance(n, ast.Call) and isinstance(n.func, ast.Attribute) and n.func.attr in COMPOSE) for n in ast.walk(v))
+                if mentions and composes and any(isinstance(n, ast.Attribute) and n.attr in ("bit_length_set", "alignment_requirement") for n in ast.walk(v)):
+                    ctx.check(False, fn.short, norm(call)[:90], "one operator level is added per folded element: the recursion depth of the layout queries grows with the number of elements", fn.where(call), {"recursive queries": sorted(recursive)[:6]})
+    ctx.count(n_loops)
+    ctx.check(True, "_serializable.*, _data_schema_builder, _data_type_builder", "%d loops scanned" % n_loops, "scan completed", "pydsdl/_serializable", nontrivial=False)
+
+
 def run(ctx: Ctx) -> None:
     repo = ctx.repo
+    ctx.attempt(rule_r4_depth, ctx)
     g = CallGraph(repo)
     ctx.analysed["callgraph"] = g.stats()
     kinds = Kinds(ctx, g)
